@@ -300,3 +300,20 @@ func tryRecv[T any](site string, ch <-chan T) (v T, ok bool, got bool) {
 }
 
 func closeChan[T any](site string, ch chan T) { simrt.CloseChan(site, ch) }
+
+// WaitDone parks the calling task until *done becomes true or d of simulated time has passed
+// (a library call that never returns must not take the harness down with it).
+func (e *Env) WaitDone(site string, d time.Duration, done func() bool) bool {
+	expired := false
+	ev := e.S.At(d, "deadline:"+site, func() { expired = true })
+	e.S.WaitUntil(site, func() bool { return expired || done() })
+	ev.Cancel()
+	return done()
+}
+
+// Call runs fn in its own harness task and waits for it for at most d of simulated time.
+func (e *Env) Call(name string, d time.Duration, fn func()) bool {
+	fin := false
+	e.S.Spawn(name, func() { fn(); fin = true })
+	return e.WaitDone(name, d, func() bool { return fin })
+}
